@@ -8,7 +8,7 @@ import os
 import subprocess
 import sys
 import time
-from collections import Counter
+from collections import Counter, OrderedDict
 from typing import Any, Dict, List, Tuple
 
 from .. import infra
@@ -29,7 +29,9 @@ RULE = (
     "the reference model's, the list must be in own-messages-then-sorted-children order, from_errors must round-trip, and the "
     "errors below each child position must equal the child's own errors (compositional check on the real code); a second "
     "pass uses a custom settings.errors catalogue (every message replaced, one by a callable); digests of all error lists "
-    "are compared between two interpreters with different PYTHONHASHSEED. distinct_nontrivial counts distinct "
+    "are compared between two interpreters with different PYTHONHASHSEED; history pass on the same compiled method: every "
+    "datum again carried by OrderedDict / list subclasses (same errors), then every rejected datum again (same errors as the "
+    "first time). distinct_nontrivial counts distinct "
     "(ctor-pair shape, options, deviations, number of error entries, set of message kinds) tuples."
 )
 
@@ -138,7 +140,60 @@ class Digest:
         self.n += 1
 
 
-def check_one(case: dc.Case, ctx: Ctx, method, d, dev, st, optkey, child_methods=None, digest=None):
+class _ListSub(list):
+    pass
+
+
+def container_subclasses(d):
+    """the same JSON datum carried by strict subclasses of dict / list (what json.load(object_pairs_hook=OrderedDict) or a
+    framework's own list type hand over); scalars are left alone"""
+    if isinstance(d, dict):
+        return OrderedDict((k, container_subclasses(v)) for k, v in d.items())
+    if isinstance(d, list):
+        return _ListSub(container_subclasses(v) for v in d)
+    return d
+
+
+def has_container(d):
+    return isinstance(d, (dict, list))
+
+
+def history_pass(case, method, data, first_errors, st, optkey):
+    """E2-style two-step histories on ONE compiled method: (the datum carried by container subclasses) ; (every rejected
+    datum again). The error list of a datum is a function of the datum, not of what the method saw before."""
+    base = {"label": case.label, "type": short(case.spec), "options": list(map(str, optkey))}
+    for d in data:
+        if not has_container(d):
+            continue
+        key = repr(d)
+        ck, cout = dc.run_impl(method, container_subclasses(d))
+        st.count("history_subclass_runs")
+        if ck == "err" and key in first_errors:
+            try:
+                got = dc.impl_errors(cout)
+            except Exception:
+                continue
+            if got != first_errors[key]:
+                st.violation(dict(base, datum=key, signature={"kind": "container_subclass_errors", "shape": dc.shape_of(case.label)},
+                                  what=f"the same datum carried by OrderedDict/list subclasses is rejected with other errors: {got[:4]} vs {first_errors[key][:4]}"[:400],
+                                  source=case.realize().source))
+    for d in data:
+        key = repr(d)
+        if key not in first_errors:
+            continue
+        ck, cout = dc.run_impl(method, d)
+        st.count("history_reruns")
+        try:
+            got = dc.impl_errors(cout) if ck == "err" else ck
+        except Exception:
+            continue
+        if got != first_errors[key]:
+            st.violation(dict(base, datum=key, signature={"kind": "history_dependent_errors", "shape": dc.shape_of(case.label)},
+                              what=f"errors of a datum changed after the method deserialized other data: {got if isinstance(got, str) else got[:4]} vs first {first_errors[key][:4]}"[:400],
+                              source=case.realize().source))
+
+
+def check_one(case: dc.Case, ctx: Ctx, method, d, dev, st, optkey, child_methods=None, digest=None, record=None):
     ref = conform(case.spec, d, ctx)
     if ref is UNSPEC:
         st.count("unspecified")
@@ -156,6 +211,8 @@ def check_one(case: dc.Case, ctx: Ctx, method, d, dev, st, optkey, child_methods
         st.count("errors_not_computable(C03 reports it)")
         return
     model = ref.e.flat()
+    if record is not None:
+        record[repr(d)] = impl
     if digest is not None:
         digest.add(case.label, repr(d), impl)
     st.case(dc.shape_of(case.label), optkey, dev, len(impl), tuple(sorted({msg_kind(m) for _, m in impl})))
@@ -259,8 +316,15 @@ def run_type(i, label, spec, tier, st, catalogue=None, digest=None):
             break
         cm = child_methods_for(ap, fb, al, ctx) if (first and catalogue is None and digest is None) else None
         child_cache.clear()
+        hist = first and catalogue is None and digest is None
+        record: Dict[str, Any] = {} if hist else None
+        data = []
         for dev, d in enumerate_data(spec, ctx, k=k if first else 1, wide=first or lvl <= 1):
-            check_one(case, ctx, method, d, dev, st, (ap, fb, al) if catalogue is None else ("custom_errors",), cm, digest)
+            check_one(case, ctx, method, d, dev, st, (ap, fb, al) if catalogue is None else ("custom_errors",), cm, digest, record)
+            if hist:
+                data.append(d)
+        if hist and record:
+            history_pass(case, method, data, record, st, (ap, fb, al))
         first = False
     for rz in extra_mods:
         rz.drop()
@@ -343,7 +407,8 @@ def main(tier: str, t0: float) -> int:
         coverage_extra={"exhaustive": True, "bounds": {"nesting": 2, "deviations": 3 if tier == "thorough" else 2}},
         assumptions=[
             "messages are those of the settings.errors catalogue and 'expected type X, found Y'; where the docs fix no text (literal vs array/object datum) any message at the location is accepted",
-            "an item of a mapping whose key AND value are both invalid is excluded (one entry per item is all the implementation defines)",
+            "an item of a mapping whose key and value are both invalid reports both at the item's location, key messages first",
+            "the history pass carries data by strict subclasses of dict and list only; subclasses of scalars are C03's business",
         ],
     )
 
